@@ -1,5 +1,5 @@
 """C02 Content preservation (structural necessary conditions; see DESIGN.md section 3, C02)"""
-from . import genrules
+from . import genrules, textrules
 
 
 def run(chk):
@@ -7,6 +7,8 @@ def run(chk):
     genrules.expansion_diffs(chk, "R02-shipped", lambda k: ("[stringify]" in k) or "PositionRestricted" in k or "Display" in k,
                              "generated stringify/pos_restrict/Display items identical (canonical form) to the generator's output")
     r02_store(chk)
+    textrules.r01_esc(chk, rule="R02-esc")
+    textrules.r01_hex(chk, rule="R02-hex")
     chk.assumptions += ["not decided: token-sequence equality of output and input as such"]
 
 
